@@ -6,6 +6,6 @@ mkdir -p $A
 git -C /repo worktree add -f $A/repo -b agent-$1 >/dev/null 2>&1 || true
 rsync -a --exclude .build --exclude .git --exclude replays /verif/ $A/verif/
 sed -i "s#/repo/#$A/repo/#g" $A/verif/harness/Cargo.toml
-sed -i "s#/verif/.build/cargo#$A/verif/.build/cargo#" $A/verif/harness/.cargo/config.toml
+
 echo "export TV_REPO=$A/repo" > $A/env.sh
 echo $A
